@@ -736,3 +736,48 @@ pub fn build_shared(seed: u64, index: u64, len: usize, max_live: usize) -> State
     }
     st
 }
+
+/// C08 through the macro: payloads created by `tree!` (root given as a value, and children) are not
+/// dropped while their nodes are live and exactly once afterwards.
+#[cfg(feature = "macros")]
+pub fn c08_macro_battery() -> Result<u64, (String, String)> {
+    use crate::payload::{drops_of, drops_reset, Tok};
+    use indextree::macros::tree;
+    drops_reset();
+    let t = |k: u64| <Tok as Payload>::make(k, k * 3);
+    let mut a: Arena<Tok> = Arena::new();
+    let pre = a.new_node(t(0));
+    pre.remove(&mut a); // a free slot for the root to land in
+    let r1 = tree!(&mut a, t(1) => { t(2), t(3) => { t(4) }, t(5) });
+    let r2 = tree!(&mut a, t(6));
+    let r3 = tree!(&mut a, r2 => { t(7) => {}, });
+    let mut bad: Option<(String, String)> = None;
+    for k in 1..=7u64 {
+        if drops_of(k) != 0 {
+            bad = Some(("macro-payload-dropped-while-live".into(), format!("payload token {} created by tree! was dropped {} times while its node is live", k, drops_of(k))));
+            break;
+        }
+    }
+    if bad.is_none() && (r3 != r2 || a[r1].get().tid() != 1 || a[r2].get().tid() != 6 || r1.descendants(&a).count() != 5 || r2.children(&a).count() != 1) {
+        bad = Some(("macro-tree-shape".into(), "tree! built something else than written".into()));
+    }
+    if let Some(b) = bad {
+        // do not run the destructors of a structure that may own a payload twice
+        std::mem::forget(a);
+        return Err(b);
+    }
+    r1.remove_subtree(&mut a);
+    for k in 1..=5u64 {
+        if drops_of(k) != 1 {
+            std::mem::forget(a);
+            return Err(("macro-payload-drop-count".into(), format!("payload token {} was dropped {} times by remove_subtree", k, drops_of(k))));
+        }
+    }
+    drop(a);
+    for k in 0..=7u64 {
+        if drops_of(k) != 1 {
+            return Err(("macro-payload-drop-count-final".into(), format!("payload token {} was dropped {} times in total", k, drops_of(k))));
+        }
+    }
+    Ok(8)
+}
